@@ -14,7 +14,8 @@
 (***************************************************************************)
 EXTENDS Naturals, Sequences, FiniteSets, TLC
 CONSTANTS BoundedWalk,   \* TRUE: the link_map walk stops after MaxLinkMaps entries; FALSE: it follows l_next until 0 or an unreadable address
-          MaxLinkMaps, NNodes
+          MaxLinkMaps, NNodes,
+          StopOnDecodeError  \* TRUE: the SONAME scan of a module's dynamic section gives up at the first entry it cannot decode; FALSE: it skips it and asks for the next
 
 SpClass  == {"none", "in_stack", "guard", "unmapped", "top_page", "misaligned", "zero"}
 IpClass  == {"interior", "first_bytes", "last_bytes", "unmapped", "zero", "max"}
@@ -24,7 +25,8 @@ VaddrClass == {"le_base", "gt_base"}
 DynClass == {"terminated", "unterminated"}
 ListClass == {"acyclic", "cyclic", "selfloop", "dangling", "name_nonutf8", "name_at_end", "empty"}
 NameClass == {"plain", "dev", "version_multibyte", "no_version", "many_components", "deleted"}
-BytesClass == {"elf", "non_elf", "elf_corrupt"}
+BytesClass == {"elf", "non_elf", "elf_corrupt", "elf_undyn"}   \* elf_undyn: an image whose dynamic section has no DT_NULL within its declared size
+NDyn == 3                                                       \* entries of a module's dynamic section before its end / DT_NULL
 Input == [sp : SpClass, ip : IpClass, phnum : PhnumClass, phdr : PhdrClass, vaddr : VaddrClass, dyn : DynClass,
           list : ListClass, name : NameClass, bytes : BytesClass]
 Base == [sp |-> "none", ip |-> "interior", phnum |-> "true", phdr |-> "true", vaddr |-> "le_base", dyn |-> "terminated",
@@ -39,23 +41,30 @@ NextOf(cls) == CASE cls = "cyclic"   -> [k \in 1..NNodes |-> IF k = NNodes THEN 
                  [] cls = "dangling" -> [k \in 1..NNodes |-> IF k = NNodes THEN NNodes + 1 ELSE k + 1]
                  [] OTHER            -> [k \in 1..NNodes |-> IF k = NNodes THEN 0 ELSE k + 1]
 
-VARIABLES inp, pc, outcome, softErrs, opened, cur, count
-vars == <<inp, pc, outcome, softErrs, opened, cur, count>>
-Init == /\ inp \in NearBase /\ pc = "stack" /\ outcome = "running" /\ softErrs = {} /\ opened = {} /\ cur = 0 /\ count = 0
-Go(next) == pc' = next /\ UNCHANGED <<inp, outcome, opened, cur, count>>
+VARIABLES inp, pc, outcome, softErrs, opened, cur, count, dynpos
+vars == <<inp, pc, outcome, softErrs, opened, cur, count, dynpos>>
+Init == /\ inp \in NearBase /\ pc = "stack" /\ outcome = "running" /\ softErrs = {} /\ opened = {} /\ cur = 0 /\ count = 0 /\ dynpos = 0
+Go(next) == pc' = next /\ UNCHANGED <<inp, outcome, opened, cur, count, dynpos>>
+(* which step of the linker-data stream yields an error value, as a function of the input (the steps below follow it) *)
+PhdrFails(i)  == i.phdr # "true" \/ i.phnum \in {"larger", "huge"}       \* an unset (zero) count is completed from /proc/<pid>/auxv
+BaseFails(i)  == i.vaddr = "gt_base"
+DynFails(i)   == i.dyn = "unterminated"
+WalkFails(i)  == i.list = "dangling"
+NamesFail(i)  == i.list = "name_nonutf8"
+DsoFails(i)   == PhdrFails(i) \/ BaseFails(i) \/ DynFails(i) \/ WalkFails(i) \/ NamesFail(i)
 (* get_stack_info on the crash stack pointer: Ok(region) or Err(NoStackPointerMapping); never anything else *)
 StackStep == pc = "stack" /\ Go("ipwindow") /\ UNCHANGED softErrs
 IpWindow  == pc = "ipwindow" /\ Go("phdr") /\ UNCHANGED softErrs
 (* dso_debug: read AT_PHNUM program headers at AT_PHDR *)
 PhdrStep  == /\ pc = "phdr"
-             /\ IF inp.phdr = "true" /\ inp.phnum \in {"true"}
+             /\ IF ~PhdrFails(inp)
                   THEN Go("base") /\ UNCHANGED softErrs
                   ELSE Go("modules") /\ softErrs' = softErrs \cup {"WriteDSODebugStreamFailed"}      \* short / failed read, absurd count: an error value
 BaseStep  == /\ pc = "base"
-             /\ IF inp.vaddr = "le_base" THEN Go("dynscan") /\ UNCHANGED softErrs
+             /\ IF ~BaseFails(inp) THEN Go("dynscan") /\ UNCHANGED softErrs
                 ELSE Go("modules") /\ softErrs' = softErrs \cup {"WriteDSODebugStreamFailed"}
 DynScan   == /\ pc = "dynscan"
-             /\ IF inp.dyn = "terminated" THEN pc' = "walk" /\ cur' = (IF inp.list = "empty" THEN 0 ELSE 1) /\ count' = 0 /\ UNCHANGED <<inp, outcome, opened, softErrs>>
+             /\ IF ~DynFails(inp) THEN pc' = "walk" /\ cur' = (IF inp.list = "empty" THEN 0 ELSE 1) /\ count' = 0 /\ UNCHANGED <<inp, outcome, opened, softErrs, dynpos>>
                 ELSE Go("modules") /\ softErrs' = softErrs \cup {"WriteDSODebugStreamFailed"}
 (* while curr_map != 0 { read link_map at curr_map; curr_map = l_next } *)
 Walk      == /\ pc = "walk"
@@ -64,19 +73,33 @@ Walk      == /\ pc = "walk"
                   ELSE IF cur = NNodes + 1
                     THEN pc' = "modules" /\ softErrs' = softErrs \cup {"WriteDSODebugStreamFailed"} /\ UNCHANGED <<cur, count>>
                     ELSE pc' = "walk" /\ cur' = NextOf(inp.list)[cur] /\ count' = (IF BoundedWalk THEN count + 1 ELSE count) /\ UNCHANGED softErrs
-             /\ UNCHANGED <<inp, outcome, opened>>
+             /\ UNCHANGED <<inp, outcome, opened, dynpos>>
 Names     == /\ pc = "names"
-             /\ IF inp.list \in {"name_nonutf8", "name_at_end"} THEN softErrs' = softErrs \cup {"WriteDSODebugStreamFailed"} ELSE UNCHANGED softErrs
+             /\ IF NamesFail(inp) THEN softErrs' = softErrs \cup {"WriteDSODebugStreamFailed"} ELSE UNCHANGED softErrs
              /\ Go("modules")
 (* module list: build id from memory, else from the file unless it lives under /dev; name / version from the path *)
 Modules   == /\ pc = "modules"
-             /\ opened' = IF inp.bytes # "elf" /\ inp.name # "dev" /\ inp.name # "deleted" THEN opened \cup {"file"} ELSE opened
-             /\ pc' = "done" /\ outcome' = "ok" /\ UNCHANGED <<inp, softErrs, cur, count>>
-Next == StackStep \/ IpWindow \/ PhdrStep \/ BaseStep \/ DynScan \/ Walk \/ Names \/ Modules
+             /\ opened' = IF inp.bytes \in {"non_elf", "elf_corrupt"} /\ inp.name # "dev" /\ inp.name # "deleted" THEN opened \cup {"file"} ELSE opened
+             /\ IF inp.bytes \in {"elf", "elf_undyn"}
+                  THEN pc' = "soscan" /\ dynpos' = 1 /\ UNCHANGED outcome        \* a build id was found: the SONAME is looked up
+                  ELSE pc' = "done" /\ outcome' = "ok" /\ UNCHANGED dynpos
+             /\ UNCHANGED <<inp, softErrs, cur, count>>
+(* for dyn in DynIter(dynamic section) { match dyn.d_tag ... DT_NULL => break }: entry NDyn + 1 is DT_NULL in a well-formed
+   image; in an "elf_undyn" image it lies beyond the declared size and cannot be decoded, and asking again gives the same answer *)
+SoScan    == /\ pc = "soscan"
+             /\ IF dynpos <= NDyn
+                  THEN dynpos' = dynpos + 1 /\ UNCHANGED <<pc, outcome>>
+                  ELSE IF inp.bytes = "elf_undyn" /\ ~StopOnDecodeError
+                    THEN UNCHANGED <<pc, outcome, dynpos>>                          \* skip the undecodable entry, ask for the next: the same one
+                    ELSE pc' = "done" /\ outcome' = "ok" /\ UNCHANGED dynpos         \* DT_NULL, or the lookup gives up with an error value (no SONAME)
+             /\ UNCHANGED <<inp, softErrs, opened, cur, count>>
+Next == StackStep \/ IpWindow \/ PhdrStep \/ BaseStep \/ DynScan \/ Walk \/ Names \/ Modules \/ SoScan
 Spec == Init /\ [][Next]_vars /\ WF_vars(Next)
 
 Total == outcome \in {"running", "ok", "err"}
 NoDevOpen == inp.name = "dev" => opened = {}
 Terminates == <>(pc = "done")
 WalkBounded == BoundedWalk => count <= MaxLinkMaps
+(* the step machine and the closed form agree on when the linker-data stream fails softly *)
+DsoFailsIsTheSteps == pc \in {"soscan", "done"} => (("WriteDSODebugStreamFailed" \in softErrs) = DsoFails(inp))
 =============================================================================
